@@ -77,3 +77,12 @@ claim("C05", "E3-isolate", "deviation-bounded exhaustive enumeration (all single
       "Every seed file x each of its entry points x every single planted deviation (each 4-byte word at every offset set to each of 28 boundary values in both byte orders, each byte to 5 values, every truncation, appends) and all 32-byte files over a 12^4 (28^4 thorough) header-word grid for the 9 bin-archive entry points, all ≤2-byte buffers and all 65 536 'pack'+count headers: ≈2M cases per build. Oracle per case: Ok/Err only (panics located, aborts and hangs attributed through subprocess isolation), no single allocation above 1 MiB + 64 x input, over-declaring headers/entries rejected (decided by the reference parser), accepted values re-serialize without panicking.",
       "Trusted: ref_bin.rs header arithmetic, the capping allocator, the seeds (fixtures + files from the reference writers and from mila's own serializers). Deviation bound 1 is completed at the quick tier; 'all byte strings' is not claimed beyond that neighbourhood.",
       "DESIGN.md §4 C05")
+
+claim("C17", "E2-enumerate", "bounded-exhaustive enumeration of animation-set values (all ≤2-present / ≤2-absent slot patterns, group patterns, set lists) with field-wise, size and byte-stability oracles",
+      "≈675k files (quick): 4 metas x 8 clip tables x all sequences of ≤3 sets from six shapes; every slot pattern with ≤2 present or ≤2 absent slots (x labels x naming schemes x embeddings), one-group patterns over boundary bits, whole-group patterns. Oracles: field-wise equality after serialize→from_bytes→from_archive, data size formula through the strict reference parser (absent slots cost nothing, empty groups omitted), re-serialization byte-identical.",
+      "Trusted: ref_bin.rs parser; generator strings are checked Shift-JIS-lossless at start-up.",
+      "DESIGN.md §4 C17")
+claim("C18", "E2-enumerate", "bounded-exhaustive enumeration of asset-binary values (all ≤2-set / ≤2-clear presence patterns, per-flag-byte combinations, spec lists) with field-wise, record-walk and byte-stability oracles",
+      "≈1.9M files (quick): 5 052 presence patterns over the 51 optional fields x names x value variants (unique per field, NaN payloads, byte-distinct colours) x embeddings x header words, plus all sequences of ≤3 specs from six shapes incl. the all-absent unnamed spec in last position. Oracles: field-wise equality incl. presence flags (f32 by bits), record walk of the image (short form iff no extended field, record extent = what its flags announce), re-serialization byte-identical.",
+      "Trusted: ref_bin.rs parser and the Appendix-A bit assignment used by the record walk. 0 or 4 bytes may follow the last record.",
+      "DESIGN.md §4 C18")
